@@ -73,7 +73,10 @@ impl<'a> Gen<'a> {
         if vs.is_empty() {
             // an empty string is passed as a default-constructed view (data() == nullptr); an empty span is spelled
             // out, because `diplomat::span`'s default constructor has size `dynamic_extent`, unlike `std::span`
-            return if matches!(ty, Ty::Str(..)) { format!("{cpp}()") } else { format!("{cpp}(nullptr, 0)") };
+            // (typed null pointer: with C++20 `diplomat::span` is `std::span`, whose constructor wants a pointer type)
+            let (_, et) = self.elem(ty);
+            let konst = if cpp.contains("<const ") { "const " } else { "" };
+            return if matches!(ty, Ty::Str(..)) { format!("{cpp}()") } else if matches!(ty, Ty::Strs(..)) { format!("{cpp}((const {}*)nullptr, 0)", self.cpp_ty(&Ty::Str(Some(crate::tygen::Lt::Anon), crate::tygen::Enc::UUtf8, crate::tygen::Sd::Std))) } else { format!("{cpp}(({konst}{et}*)nullptr, 0)") };
         }
         let a = self.array(ty, vs);
         format!("{cpp}({a}, {})", vs.len())
